@@ -437,6 +437,26 @@ class Result:
             raise Unsupported('iteration over a DISTINCT result (needs a unit-level model)')
         return _ResultIter(I, self)
 
+    def sym_comprehension(self, I, n, g, env):
+        """`[row[i] for row in result]` where column i is the hashkey: the list of the matching keys, each once."""
+        import ast
+        from .engine import MList
+        e = n.elt
+        ok = (not g.ifs and isinstance(g.target, ast.Name) and isinstance(e, ast.Subscript) and isinstance(e.value, ast.Name)
+              and e.value.id == g.target.id and isinstance(e.slice, ast.Constant) and isinstance(e.slice.value, int))
+        if not ok or self.q.dist or self.q.lim is not None:
+            raise Unsupported('comprehension over a result (only [row[i] for row in result] is modelled)')
+        i = e.slice.value
+        if not (0 <= i < len(self.q.cols)) or self.q.cols[i].name != 'hashkey':
+            raise Unsupported('comprehension over a result selecting another column than hashkey')
+        vc = I.vc
+        S = SSet.fresh('selected_keys')
+        vc.assume(Forall(lambda k: S.has(k) == self.matches(I, k)))
+        cnt = SInt.fresh('nselected')
+        vc.assume(cnt >= 0)
+        EM.effect(I, 'sql_rows_fetched', result=self)
+        return MList(None, n=cnt, elems=S, distinct=SBool.of(True))
+
     def sym_truth(self, vc):
         return True
 
